@@ -71,6 +71,11 @@ def run_case(case, ctx):
             ctx.mon('pair_not_accountable')   # control flow diverged: decided by C06, not charged here
             continue
         ch = privacy.charges(r1['events'], r2['events'])
+        if any(c.get('unattributable') for c in ch):
+            ctx.mon('pair_not_accountable')   # noise broadcast over part of a release in a pattern the accountant has no rule for
+            continue
+        if any(c.get('shared_noise') for c in ch):
+            ctx.tag('one_noise_draw_shared_by_several_cells')
         spent = float(sum(c[key] for c in ch))
         ctx.stat('budget_fraction:' + case['mech'], spent / B)
         by_type = {}
